@@ -5,7 +5,7 @@ from harness.common import coq_list, coq_bool
 
 CORPUS = os.path.join(common.VERIF, "corpus", "C04")
 REQ = ["Verif.gen.OrderGen", "Verif.lib.Order"]
-FATES = {0: "FPlain", 1: "FGift", 2: "FRejectEarly", 3: "FRejectLate"}
+FATES = {0: "FPlain", 1: "FGift %d", 2: "FRejectEarly", 3: "FRejectLate"}
 OK_KINDS = ("plain", "slow", "gift")
 
 
@@ -25,6 +25,8 @@ def rand_spec(rng, depth=0, allow_gift=True):
         spec["stalls"] = 1 if r < 0.22 else (2 if r < 0.33 else 3)
     if rng.random() < 0.15:
         spec["only"] = True
+    if kind == "gift" and "stalls" not in spec and rng.random() < 0.4:
+        spec["gifts"] = 2                                # two third-party references in one call
     if kind != "local" and rng.random() < 0.25:
         spec["pos"] = rng.choice(("all", "some"))        # arguments passed positionally (all four / all but the last)
     if kind == "plain" and depth < 2 and rng.random() < 0.2:
@@ -49,7 +51,7 @@ def rand_noise(rng, gifts=False):
     return ["noise", ["issue", d, rand_spec(rng, depth=1, allow_gift=(gifts and d == 0))]]
 
 
-def rand_script(rng, n, gifts=True, noise=0.0):
+def rand_script(rng, n, gifts=True, noise=0.0, loss=False):
     sc = []
     for _ in range(n):
         if noise and rng.random() < noise:
@@ -71,6 +73,8 @@ def rand_script(rng, n, gifts=True, noise=0.0):
             sc.append(["finish", 0 if rng.random() < 0.8 else 1, rng.randrange(3), rng.random() < 0.5])
         else:
             sc.append(["turn"])
+    if loss and n >= 4:
+        sc.insert(rng.randint(n // 3, n - 1), ["lose", 0 if rng.random() < 0.8 else 1])
     return sc
 
 
@@ -97,6 +101,64 @@ def gift_block(rng, k, ok, chunks):
     sc += [["turn"], ["turn"]]
     sc += [["gift", 0, 0, ok], ["turn"], ["gift", 0, 0, True], ["turn"], ["turn"]]
     return sc
+
+
+def multi_gift(rng, k, results, chunks):
+    """a call with TWO third-party references waits at the head of the queue (or is still queued behind another waiting
+    call); k calls follow; the references resolve / fail one by one in the order `results`, with turns in between"""
+    sc = []
+    if rng.random() < 0.5:
+        sc += [["issue", 0, dict(kind="gift")]]
+    sc += [["issue", 0, dict(kind="gift", gifts=2, pos=rng.choice((None, "all", "some")))]]
+    sc += [["issue", 0, dict(kind=rng.choice(("plain", "plain", "gift", "late")), gifts=rng.choice((1, 2)))] for _ in range(k)]
+    sc += [["deliver", 0, chunks] for _ in range(len(sc))]
+    sc += [["turn"], ["turn"]]
+    for ok in results:
+        sc += [["gift", 0, rng.randrange(3), ok]] + [["turn"] for _ in range(rng.randint(0, 2))]
+    return sc
+
+
+def loss_family(rng, k, chunks, when):
+    """the receiver loses the connection while a call waits for its gift (when='waiting'), while calls are queued
+    (when='queued'), or while the sender is paused in a streaming argument (when='paused'); afterwards gifts resolve,
+    stalls are released, calls keep being issued and turns run: nothing may be entered any more"""
+    sc = [["issue", 0, dict(kind="plain")], ["deliver", 0, chunks], ["turn"]]
+    if when == "waiting":
+        sc += [["issue", 0, dict(kind="gift", gifts=rng.choice((1, 2)))], ["deliver", 0, chunks], ["turn"], ["turn"]]
+    elif when == "paused":
+        sc += [["issue", 0, dict(kind="plain", stalls=1)]]
+    sc += [["issue", 0, dict(kind=rng.choice(("plain", "plain", "gift", "late", "slow")))] for _ in range(k)]
+    sc += [["deliver", 0, chunks] for _ in range(rng.randint(0, k))]
+    if when == "queued" and rng.random() < 0.5:
+        sc += [["turn"]]
+    sc += [["lose", 0]]
+    tail = [["gift", 0, 0, True], ["gift", 0, 1, rng.random() < 0.7], ["turn"], ["turn"], ["release", 0], ["deliver", 0, chunks],
+            ["issue", 0, dict(kind="plain")], ["issue", 1, dict(kind="plain")], ["deliver", 1, chunks], ["turn"]]
+    rng.shuffle(tail)
+    return sc + tail
+
+
+def clock_scripts():
+    """fixed scripts in which virtual time passes at every stage of a gift stall: while the gift call waits at the head of
+    the queue with later calls behind it, and again after it was resolved / failed.  Call delivery must not depend on time."""
+    out = []
+    for secs in (0.3, 30.0, 4000.0):
+        for late_ok in (True, False):
+            for n_gifts in (1, 2):
+                sc = [["issue", 0, dict(kind="gift", gifts=n_gifts)], ["issue", 0, dict(kind="plain")], ["issue", 0, dict(kind="plain", only=True)],
+                      ["deliver", 0, None], ["deliver", 0, None], ["deliver", 0, None], ["turn"], ["turn"],
+                      ["advance", secs], ["turn"], ["turn"], ["issue", 0, dict(kind="plain")], ["deliver", 0, None], ["turn"],
+                      ["gift", 0, 0, late_ok], ["turn"], ["advance", secs], ["gift", 0, 0, True], ["turn"], ["turn"]]
+                out.append(sc)
+    return out
+
+
+def knob_values(default):
+    if isinstance(default, bool):
+        return [not default]
+    if default is None:
+        return [0.2, 0, 5.0, True]
+    return [0, default * 2 + 1]
 
 
 def failure_behind_gift(rng, variant, resolve, k, chunks):
@@ -189,6 +251,16 @@ def judge(r):
         if ids != list(range(len(ids))):
             bad.append(("harness-inconsistency", "issue numbering %r" % ids))
         ent = [c for e, c in ev if e == "entered"]
+        lost_at = next((i for i, (e, c) in enumerate(ev) if e == "lost"), None)
+        excused = set()
+        if lost_at is not None:
+            late = [c for e, c in ev[lost_at + 1:] if e == "entered"]
+            if late:
+                bad.append(("oracle/entered-after-loss", "direction %d: call(s) %r were entered after the receiving Broker had lost "
+                            "the connection (connectionLost -> finish)" % (d, late)))
+            excused = set(ids) - set(c for e, c in ev[:lost_at] if e == "entered")
+        if r.get("send_lost", [False, False])[d]:
+            excused = set(ids) - set(ent)           # the sending side was cut off: whatever had not arrived is gone
         if len(set(ent)) != len(ent):
             bad.append(("oracle/duplicate-entry", "direction %d: a call was entered more than once: entered %r" % (d, ent)))
         elif ent != sorted(ent):
@@ -215,7 +287,7 @@ def judge(r):
         kinds = {c: k for c, k, _ in issued}
         for c, k in kinds.items():
             n = ent.count(c)
-            if k in OK_KINDS and n == 0 and c not in failed_gifts:
+            if k in OK_KINDS and n == 0 and c not in failed_gifts and c not in excused:
                 bad.append(("oracle/lost-call", "direction %d: call %d (%s) was issued but never entered%s, although every stall was "
                             "released, every byte delivered and every gift resolved"
                             % (d, c, k, " (the receiver reported it as failed)" if ("failed", c) in ev else "")))
@@ -225,12 +297,12 @@ def judge(r):
                 bad.append(("oracle/rejected-call-entered", "direction %d: call %d (%s) must be refused but was entered" % (d, c, k)))
         # what the caller saw
         for (c, k), res in r["results"][d].items():
-            if k == "plain" and res != c:
+            if k == "plain" and res != c and c not in excused and not r.get("send_lost", [False, False])[d]:
                 bad.append(("oracle/wrong-answer", "direction %d: call %d answered %r" % (d, c, res)))
     return bad
 
 
-def report(ctx, impl, name, script, r, bad, seen, loopback=False):
+def report(ctx, impl, name, script, r, bad, seen, loopback=False, knobs=None):
     """shrink the script (once per signature), then record the failures"""
     sig0 = bad[0][0]
     if sig0 not in seen and not sig0.startswith("harness") and len(script) > 2 and not name.startswith("corpus/"):
@@ -238,25 +310,29 @@ def report(ctx, impl, name, script, r, bad, seen, loopback=False):
 
         def still(sc):
             try:
-                return any(sg == sig0 for sg, _ in judge(impl.run_scenario(sc, loopback=loopback)))
+                return any(sg == sig0 for sg, _ in judge(impl.run_scenario(sc, loopback=loopback, knobs=knobs)))
             except Exception:
                 return False
         small = common.shrink_list(script, still, max_rounds=60)
         if len(small) < len(script):
-            r2 = impl.run_scenario(small, loopback=loopback)
+            r2 = impl.run_scenario(small, loopback=loopback, knobs=knobs)
             bad2 = judge(r2)
             if any(sg == sig0 for sg, _ in bad2):
                 script, r, bad, name = small, r2, bad2, name + " (shrunk)"
     for sig, what in bad:
-        ctx.fail(sig, "%s [scenario %s%s: %s]" % (what, name, " over LoopbackTransport" if loopback else "", json.dumps(script)[:1500]),
-                 replay=dict(scenario=name, script=script, loopback=loopback, events=r["events"], issued=r["issued"]),
+        ctx.fail(sig, "%s [scenario %s%s%s: %s]" % (what, name, " over LoopbackTransport" if loopback else "",
+                                                     " with Broker attribute(s) %r set on both brokers" % knobs if knobs else "", json.dumps(script)[:1500]),
+                 replay=dict(scenario=name, script=script, loopback=loopback, knobs=knobs, events=r["events"], issued=r["issued"]),
                  has_input=not sig.startswith("harness"))
 
 
 # ------------------------------------------------------------------ correspondence
 def coq_op(o):
     if o[0] == "I":
-        return "Issue %d %s" % (o[2], FATES[o[1]])
+        f = FATES[o[1]]
+        return "Issue %d %s" % (o[2], "(" + f % max(o[3], 1) + ")" if "%d" in f else f)
+    if o[0] == "X":
+        return "Disconnect"
     if o[0] == "S":
         return "StallRelease"
     if o[0] == "D":
@@ -269,7 +345,14 @@ def coq_op(o):
 
 
 def impl_obs(o):
-    return (o["sendq"], [] if o["cur"] is None else [o["cur"]], o["wire"], (o["inq"], o["waiting"], o["entered"]))
+    return (o["sendq"], [] if o["cur"] is None else [o["cur"]], o["wire"], (o["inq"], o["waiting"], o["entered"]),
+            (o["lost"], [(c, (a, b, (f, l))) for (c, ((a, b), (f, l))) in o["pend"]]))
+
+
+def norm(x):
+    if isinstance(x, (list, tuple)):
+        return tuple(norm(y) for y in x)
+    return x
 
 
 def correspond(ctx, runs):
@@ -293,13 +376,14 @@ def correspond(ctx, runs):
             ctx.traces += 1
             for i, (m, o) in enumerate(zip(mobs, r["obs"])):
                 total_steps += 1
-                m = (m[0], m[1], m[2], (m[3][0], m[3][1], m[3][2]))
-                io = impl_obs(o[d])
+                m = norm(m)
+                io = norm(impl_obs(o[d]))
                 if m != io:
                     nbad += 1
                     if nbad <= 3:
                         ctx.fail("correspondence/state", "model and implementation disagree in scenario %s, direction %d, after step %d "
-                                 "(%s): model (sendq, cur, wire, (inq, waiting, entered)) = %r, implementation %r; ops so far %r"
+                                 "(%s): model (sendq, cur, wire, (inq, waiting, entered), (lost, [(call, ((unreferenceable children, AsyncAND.remaining), "
+                                 "(AsyncAND._fired, unresolved gifts)))])) = %r, implementation %r; ops so far %r"
                                  % (name, d, i, script[i] if i < len(script) else "quiesce", m, io, r["ops"][d][:i + 1]),
                                  replay=dict(scenario=name, script=script, direction=d, step=i, model=m, impl=io,
                                              ops=r["ops"][d]), has_input=False)
@@ -474,21 +558,55 @@ Eval vm_compute in send_idle_before_enqueue.
                      % (o["idle_wakes"], idle, o["busy_wakes"]), replay=dict(measured=o, model_idle=idle), has_input=False)
 
 
+def async_and_facts(ctx, impl):
+    """the translated AsyncAND (and_init / and_cb) against the real class: all result sequences over up to 4 components"""
+    import itertools
+    cases = [(n, list(rs)) for n in range(1, 5) for k in range(1, n + 1) for rs in itertools.product((True, False), repeat=k)]
+    body = """
+Definition and_trace (n : Z) (rs : list bool) :=
+  snd (fold_left (fun acc r => match acc with (st, fire, tr) =>
+                    match and_apply st fire r with (st', fire') =>
+                      (st', fire', tr ++ [(fst st', snd st', match fire' with Some true => 1 | Some false => 0 | None => 2 end)]) end end)
+                 rs (and_init n, @None bool, [])).
+Eval vm_compute in map (fun c => and_trace (fst c) (snd c)) %s.
+""" % coq_list(["(%d%%Z, %s)" % (n, coq_list([coq_bool(x) for x in rs])) for n, rs in cases])
+    try:
+        (vals,) = ctx.coq_eval("C04_asyncand", body, requires=REQ)
+    except common.CoqEvalError as e:
+        ctx.fail("correspondence-broken", "the translated AsyncAND could not be evaluated: " + str(e)[-1500:], has_input=False)
+        return
+    for (n, rs), m in zip(cases, vals):
+        o = impl.run_async_and(n, rs)
+        ctx.case(["asyncand", n, rs], nontrivial=n >= 2)
+        if any(x[3] > 1 for x in o):
+            ctx.fail("oracle/ready-fired-twice", "util.AsyncAND over %d Deferreds fired more than once for results %r" % (n, rs),
+                     replay=dict(n=n, results=rs, trace=o))
+        if [list(x) for x in norm(m)] != [[a, b, c] for a, b, c, _ in o]:
+            ctx.fail("correspondence/async-and", "AsyncAND over %d Deferreds, results %r: translated (remaining, _fired, outcome) %r, real class %r"
+                     % (n, rs, m, o), replay=dict(n=n, results=rs, model=m, impl=o), has_input=False)
+
+
 # ------------------------------------------------------------------ entry point
 def run(ctx):
-    ctx.rule = ("a scenario is a script of issue (plain / method returning a Deferred that completes or errbacks later / streaming argument that pauses on 1-3 Deferreds / third-party "
-                "reference / schema-violating argument / unserializable argument / missing argument / locally refused; "
+    ctx.rule = ("a scenario is a script of issue (plain / method returning a Deferred that completes or errbacks later / streaming argument that pauses on 1-3 Deferreds / one or two third-party "
+                "references / schema-violating argument / unserializable argument / missing argument / locally refused; "
                 "callRemote or callRemoteOnly; optionally issuing further calls from inside the remote_ method), "
-                "release-stall, deliver-up-to-next-call (random chunk sizes), resolve-or-fail-gift and eventual-turn steps "
+                "release-stall, deliver-up-to-next-call (random chunk sizes), resolve-or-fail-one-gift, receiver-loses-connection and eventual-turn steps "
                 "on a real Broker pair in both directions; distinct = distinct script; non-trivial = at least 3 calls were "
                 "really sent in one direction and at least one of them was stalled, blocked behind a gift, refused, or "
                 "issued re-entrantly")
     ctx.assumptions = [
         "the transport delivers bytes in order (TCP); the harness moves the bytes itself, in arbitrary pieces",
         "Twisted Deferred callback chains run synchronously and in the order added (modelled, not verified)",
-        "connection loss is outside the model (Broker.doNextCall's `if self.disconnected` branch is not exercised)",
+        "connection loss: the RECEIVER's loss (Broker.connectionLost -> finish) is a model op (Disconnect) with theorems and is "
+        "exercised by the correspondence; a SENDER that is cut off is judged by the direct oracle only (what it had not "
+        "written is gone: the model keeps those calls upstream forever)",
         "a third-party reference is resolved by a stand-in Tub.getReference whose Deferred the harness fires, and only "
-        "after the call carrying it has been completely received",
+        "after the call carrying it has been completely received (a resolution that precedes the end of its call is not a "
+        "model op); a call carries at most two references at argument level (references nested in containers: oracle of C08/C09)",
+        "the Deferred network of a delivery (AsyncAND x2, ArgumentUnslicer counters) is translated statement by statement; "
+        "how the pieces are wired together (receiveClose, TheirReferenceUnslicer._ready/_failed) is hand-modelled, checked "
+        "as shape facts and compared with the real counters after every step",
         "the receive path (Banana.handleData, CallUnslicer) is tied by trace validation only: one model Deliver step = the "
         "bytes up to the end of the next serialized call",
     ]
@@ -502,11 +620,11 @@ def run(ctx):
 
     ndone = [0]
 
-    def do(name, script, loopback=False):
+    def do(name, script, loopback=False, knobs=None):
         ndone[0] += 1
         if ndone[0] % 40 == 0:
             impl.settle_gc()
-        r = impl.run_scenario(script, loopback=loopback)
+        r = impl.run_scenario(script, loopback=loopback, knobs=knobs)
         sent = [len(r["issued"][d]) for d in (0, 1)]
         interesting = any(k != "plain" or st for d in (0, 1) for _, k, st in r["issued"][d]) or sent[1] > 0
         ctx.case([loopback, script], nontrivial=max(sent) >= 3 and interesting)
@@ -521,12 +639,13 @@ def run(ctx):
         ctx.hist("script_len", 10 * (len(script) // 10))
         bad = judge(r)
         if bad:
-            report(ctx, impl, name, script, r, bad, seen_sigs, loopback)
-        if loopback:
+            report(ctx, impl, name, script, r, bad, seen_sigs, loopback, knobs)
+        if loopback or knobs:
             return r                                # bytes travel in the eventual queue: direct oracle only
         has_gift = any(k == "gift" for d in (0, 1) for _, k, _ in r["issued"][d])
-        runs.append((name, script, 0, r))
-        if not has_gift and sent[1]:
+        if not r["send_lost"][0]:
+            runs.append((name, script, 0, r))       # (a sender that was cut off is judged by the direct oracle only)
+        if not has_gift and sent[1] and not r["send_lost"][1]:
             runs.append((name, script, 1, r))      # reverse direction is free of the broker's own decgift calls
         return r
 
@@ -541,7 +660,7 @@ def run(ctx):
         doc = json.load(open(ctx.replay))
         sc = (doc.get("replay") or {}).get("script") or doc.get("script")
         if sc:
-            do("replay", sc, loopback=bool((doc.get("replay") or doc).get("loopback")))
+            do("replay", sc, loopback=bool((doc.get("replay") or doc).get("loopback")), knobs=(doc.get("replay") or doc).get("knobs"))
     # 2. targeted families
     rng = ctx.rng
     for k in range(2, ctx.n(7, 12)):
@@ -558,6 +677,26 @@ def run(ctx):
                 for rep in range(ctx.n(2, 5)):
                     do("failure-behind-gift-%s-%s-%d-%d" % (variant, resolve, k, rep),
                        failure_behind_gift(rng, variant, resolve, k, rand_chunks(rng)))
+    for results in ((True, True), (True, False), (False, True), (True, True, True), (False, False, True), (True, False, True, True)):
+        for k in range(1, ctx.n(3, 6)):
+            for rep in range(ctx.n(1, 4)):
+                do("multi-gift-%s-%d-%d" % ("".join("ty"[0] if x else "f" for x in results), k, rep),
+                   multi_gift(rng, k, results, rand_chunks(rng)))
+    for when in ("waiting", "queued", "paused"):
+        for k in range(1, ctx.n(4, 7)):
+            for rep in range(ctx.n(2, 5)):
+                do("loss-%s-%d-%d" % (when, k, rep), loss_family(rng, k, rand_chunks(rng), when))
+    # time passes: call delivery must not depend on it -- with the default configuration and with every configuration
+    # attribute of Broker/Banana that the reference tree does not have, set to non-default values
+    for i, sc in enumerate(clock_scripts()):
+        do("clock-%d" % i, sc)
+    for knob, default in sorted(impl.new_knobs().items()):
+        ctx.note("configuration attribute Broker.%s (default %r) does not exist on the reference tree: exercised with non-default values" % (knob, default))
+        for v in knob_values(default):
+            for i, sc in enumerate(clock_scripts()):
+                do("knob-%s=%r-%d" % (knob, v, i), sc, knobs={knob: v})
+            for i in range(ctx.n(10, 60)):
+                do("knob-%s=%r-random-%d" % (knob, v, i), rand_script(rng, 24, gifts=True), knobs={knob: v})
     for c in (1, 2, 3, 4, 5, 7, 11):
         for k in range(1, ctx.n(3, 5)):
             for rep in range(ctx.n(1, 4)):
@@ -569,7 +708,7 @@ def run(ctx):
     # 3. random scripts
     for i in range(ctx.n(260, 6000)):
         n = rng.choice((8, 12, 16, 24, 32, 48))
-        sc = rand_script(rng, n, gifts=rng.random() < 0.6, noise=rng.choice((0.0, 0.0, 0.1)))
+        sc = rand_script(rng, n, gifts=rng.random() < 0.6, noise=rng.choice((0.0, 0.0, 0.1)), loss=(i % 5 == 4))
         r = do("random-%d" % i, sc)
         if i < 3:
             ctx.sample(dict(script=sc, entered=[[c for e, c in r["events"][d] if e == "entered"] for d in (0, 1)]))
@@ -595,6 +734,7 @@ def run(ctx):
         correspond(ctx, runs)
         local_correspond(ctx, impl)
         unit_facts(ctx, impl)
+        async_and_facts(ctx, impl)
     else:
         ctx.note("model does not build: correspondence skipped")
     if not ok and len(ctx.failures) == before:
